@@ -1,7 +1,9 @@
 (* Driver for the aggregate model of C02 (coq/c02/C02AggModel.v): reads the case lines of `c02 corr`
      A <id> <kind> <tokens> <ops> <observations>
    rebuilds the structure, runs the history on the extracted model and prints
-     "OK <id> <kind>"  or  "MISMATCH <id> model=<observations of the model>". *)
+     "OK <id> <kind> wf=<0|1>"  or  "MISMATCH <id> model=<observations of the model>"
+   (wf: the boolean hypothesis of the aggregate theorems -- afrag_wf / aseg_wf / obs_wf / afile_wf, senc_ok -- evaluated by the
+   extracted C02AggWfModel on the structure of the case as handed over, before the history). *)
 open BinNums
 open Vx
 open C05Model
@@ -9,6 +11,7 @@ open C05FragModel
 open C02AggModel
 open C02AggSencModel
 open C02AggCapModel
+open C02AggWfModel
 
 let hexn s = n_of_hex s
 let hn n = hex_of_n n
@@ -342,20 +345,22 @@ let () =
       | ["A"; id; kind; toks; ops; obs] ->
         let t = { toks = Array.of_list (L.filter (fun x -> x <> "") (split_on ' ' toks)); pos = 0 } in
         bad_oboxes := [];
+        let wf = ref false in
         let m =
           try
             (match kind with
-             | "frag" -> history afrag_xstep dig_frag lz_frag (p_frag t) ops
-             | "seg" -> history aseg_xstep dig_seg lz_seg (p_seg t) ops
-             | "init" -> history ainit_xstep (fun b _ -> Buffer.add_string b "I") (fun _ -> false) (p_init t) ops
-             | "file" -> history afile_xstep dig_file lz_file (p_file t) ops
+             | "frag" -> let x = p_frag t in wf := x_afrag_wf x; history afrag_xstep dig_frag lz_frag x ops
+             | "seg" -> let x = p_seg t in wf := x_aseg_wf x; history aseg_xstep dig_seg lz_seg x ops
+             | "init" -> let x = p_init t in wf := x_obs_wf x;
+               history ainit_xstep (fun b _ -> Buffer.add_string b "I") (fun _ -> false) x ops
+             | "file" -> let x = p_file t in wf := x_afile_wf x; history afile_xstep dig_file lz_file x ops
              | _ -> failwith "bad kind")
           with Inconsistent w -> "INCONSISTENT " ^ w in
         if t.pos <> Array.length t.toks && not (S.length m > 12 && S.sub m 0 12 = "INCONSISTENT") then
           Printf.printf "MISMATCH %s driver: %d tokens left\n" id (Array.length t.toks - t.pos)
         else if !bad_oboxes <> [] then
           Printf.printf "MISMATCH %s opaque box not stateless / Size() vs bytes written: %s\n" id (S.concat " " (L.rev !bad_oboxes))
-        else if m = obs then Printf.printf "OK %s %s\n" id kind
+        else if m = obs then Printf.printf "OK %s %s wf=%d\n" id kind (if !wf then 1 else 0)
         else Printf.printf "MISMATCH %s model=%s\n" id m
       | ["A"; id; "sencd"; hsize; hlen; payload; piv; ops; obs] ->
         let m = senc_decoded (hexn hsize) (hexn hlen) (bytes_of_hex payload) piv ops in
@@ -365,6 +370,6 @@ let () =
         let t = { toks = Array.of_list (L.filter (fun x -> x <> "") (split_on ' ' toks)); pos = 0 } in
         let (s, oc) = p_senc t in
         let m = senc_history s ops in
-        if oc = addobs && m = obs then Printf.printf "OK %s senc\n" id
+        if oc = addobs && m = obs then Printf.printf "OK %s senc wf=%d\n" id (if x_senc_ok s then 1 else 0)
         else Printf.printf "MISMATCH %s model=%s %s\n" id oc m
       | _ -> Printf.printf "MISMATCH ? bad line\n")
